@@ -380,9 +380,10 @@ impl FixedScaleFactor {
     fn apply(self, value: i32) -> f32 {
         // Match FreeType metric scaling
         // <https://gitlab.freedesktop.org/freetype/freetype/-/blob/80a507a6b8e3d2906ad2c8ba69329bd2fb2a85ef/src/base/ftadvanc.c#L50>
-        self.0
-            .mul_div(Fixed::from_bits(value), Fixed::from_bits(64))
-            .to_f32()
+        // 64-bit product: `value * scale / 64` exceeds 16.16 for |value| >= 32768 at the identity scale
+        let product = self.0.to_bits() as i64 * value as i64;
+        let rounded = (product.abs() + 32) / 64 * product.signum();
+        (rounded as f64 / 65536.0) as f32
     }
 }
 
